@@ -77,10 +77,40 @@ def run_wiring(run, tier):
     run.pending_failures = saved
 
 
+def run_pipeline(run, tier):
+    """every listing of PyKdebugParser is a chain of lazy element-wise stages over KdBufParser.parse (contract proved in C06):
+    what a line shows is decided when its trace is produced, not after later records were read"""
+    pid = run.pid
+    if pid == 'C06':
+        return
+    from checks import c06
+    saved = getattr(run, 'pending_failures', [])
+    run.pending_failures = []
+    c06.verify_pipeline(run, tier, root=pid)
+    mine, run.pending_failures = run.pending_failures, saved
+    if not mine:
+        return
+    found = None
+    for req in ({'kind': 'process_column_case'}, {'kind': 'truncation_search', 'seed': run.seed, 'budget': 40}, {'kind': 'api_history_case'}):
+        out = native(req, timeout=900)
+        if out.get('violates'):
+            f = out.get('found') if isinstance(out.get('found'), dict) else out
+            found = {'request': f.get('request', req), 'native': f, 'what': f.get('what', out.get('what', ''))}
+            break
+    for ob, status, why in mine:
+        if found:
+            run.violation(ob, {'request': found['request'], 'native': found['native'], 'solver_output': '%s (%s)' % (status, why)}, True, what=found['what'])
+        elif status == 'refuted':
+            run.violation(ob, {'request': None, 'solver_output': why}, False, what=why)
+        else:
+            run.undecide(ob, why)
+
+
 def run_generic(run, tier):
     pid = run.pid
     failures = []
     run_wiring(run, tier)
+    run_pipeline(run, tier)
     # ---- constructors
     sess = Session()
     it = sess.it
